@@ -114,6 +114,9 @@ def run(ctx):
                                  "missing": miss, "extra": extra})
         if len(ctx.violations) > 10:
             break
+    # ---- operand roles and register changes inside the model (Props/C03Roles.lean, harness/rolescheck.py)
+    from harness import rolescheck
+    rolescheck.run(ctx, syn_forms)
     ctx.cov["evaluations"] = ctx.counts.get("kernels", 0) + ctx.counts.get("role_kernels", 0) + ctx.counts.get("synisa_kernels", 0)
     ctx.cov["distinct_nontrivial"] = len(distinct)
     ctx.cov["traces_validated_against_impl"] = ctx.counts.get("dg_compared", 0)
